@@ -41,17 +41,21 @@ def judge(case, d, model):
         return [('gen:setup', 'binary I/O failed while combining separately built modules: ' + d.get('build', ''))], info
     t0 = K.text_of(d, 'T0')
     if 'CRASH' in d:
-        last = [k for k in d if k != 'CRASH'][-1]
-        if last == 'build':
+        # the harness announces every stage (field @): a crash belongs to the stage that was running
+        st = d.get('@', 'output')
+        if st == 'output':
             bad.append(('writer-crash', 'MIR_output crashed (%s)' % d['CRASH']))
-        elif last in ('W1', 'W2', 'RB', 'T1') and 'SC' not in d:
+        elif st == 'scan':
             bad.append(('scan-crash', 'MIR_scan_string crashed on the text MIR_output wrote (%s)' % d['CRASH']))
-        elif last in ('SC', 'T2') and 'SC2' not in d and d.get('SC') == 'ok':
+        elif st in ('output-after-scan', 'scan2'):
             bad.append(('scan-crash', 'MIR_output or the second MIR_scan_string crashed after the scan (%s)' % d['CRASH']))
-        elif last in ('SC2',):
+        elif st == 'output-after-scan2':
             bad.append(('writer-crash', 'MIR_output crashed on the re-scanned module (%s)' % d['CRASH']))
-        elif 'X2' not in d and 'X0' in d and d.get('SC') == 'ok' and last in ('X0', 'X1'):
-            pass          # crash while executing: compared below through missing X2
+        elif st in ('exec-after-scan', 'probe-after-scan'):
+            pass          # compared below through the missing X2 / FR2
+        else:
+            # binary stages, execution of the original: not the text round trip (C11 / generator)
+            return [('gen:setup', 'crash in stage %s' % st)], info
         if bad:
             return bad, info
     if t0 is None:
@@ -138,6 +142,13 @@ def run(chk):
                  else 'several modules, one context' if case.count('endmodule') > 1 else 'one module')
         if a.get('TN2', '').strip('0,'):
             chk.dist('temp_counters', 'some module counter restored to non-zero by the scan')
+        if 'WFT' in m:
+            chk.dist('theorem_hypotheses', ('wf_text_b holds' if m['WFT'] == '1' else 'outside wf_text_b') + ', labels '
+                     + {'id': 'in first-occurrence order (text_module_fixpoint applies)', 'renamed': 'numbered otherwise '
+                        '(text_roundtrip_checked: scan = renamed modules)', 'none': 'not renamable'}.get(m.get('RL'), '?'))
+            if 'WFT2' in m:
+                chk.dist('theorem_hypotheses_second_round', 'renamed context meets wf_text_b and is canonical' if m['WFT2'] == '1'
+                         else 'renamed context outside wf_text')
         if 'TAST' in m:
             chk.dist('theorem_conclusion_on_model',
                      {'tnorm': 'scan_ctx (p_ctx ms) = map tnorm_module ms (labels already in first-occurrence order)',
